@@ -373,7 +373,7 @@ func allLeaves() []*node {
 // chosen so that every spelling policy has something to act on).
 func treeLeaves(small bool) []*node {
 	if small {
-		return []*node{nNull(), nBool(true), nInt("17"), nReal("-.5"), nStr([]byte("a(\\)\r\n\x80"), ""), nName([]byte("A #/"), ""), nRef(1, 0)}
+		return []*node{nNull(), nInt("17"), nReal("-.5"), nStr([]byte("a(\\)\r\n\x80"), ""), nName([]byte("A #/"), ""), nRef(1, 0)}
 	}
 	return []*node{nNull(), nBool(true), nBool(false), nInt("17"), nInt("-1"), nReal("-.5"), nReal("4."),
 		nStr([]byte("a(\\)\r\n\x80"), ""), nStr([]byte(")\x00" + "1\xf0"), ""), nStr(nil, ""),
